@@ -2,6 +2,7 @@ import LentilVerif.Lemmas.Tilt
 import LentilVerif.Lemmas.Propagate
 import LentilVerif.Props.C02
 import LentilVerif.Lemmas.FftComplex
+import LentilVerif.Model.Plane
 import Mathlib.Tactic.FieldSimp
 import Mathlib.Tactic.Linarith
 import Mathlib.Analysis.Real.Sqrt
@@ -60,6 +61,33 @@ elements in between only the order differs, which does not matter -/
 theorem wavefront_tilt_is_tilt_plane (h0 : (RealLike.ofInt 0 : R) = 0) (a b : R) (planes : List (TiltEl R)) (z wl : R) :
     foldShift (TiltEl.angular a b :: planes) z wl = foldShift (planes ++ [TiltEl.angular a b]) z wl :=
   shift_perm_invariant h0 _ _ (by simpa using (List.perm_append_singleton (TiltEl.angular a b) planes).symm) z wl
+
+/-- **How the tilt lists are built** (generated wiring of `Wavefront.__init__`, `Field.__mul__`, `TiltInterface.multiply`): a
+wavefront created with `tilt=(a, b)` and passed through planes carrying no recorded tilt and then nothing else carries
+`[Tilt(a, b)]`; the same planes followed by a `Tilt(a, b)` plane on an untilted wavefront give `[Tilt(a, b)]` as well;
+products never drop or duplicate elements: the list after planes with recorded tilts `pts` is the concatenation, in order. -/
+theorem tilt_lists_built (a b : R) (pts : List (List (TiltEl R))) (init : List (TiltEl R)) (e : TiltEl R) :
+    waveTilt a b = [TiltEl.angular a b] ∧
+    tiltListAfterPlanes init pts = init ++ pts.flatten ∧
+    tiltListAfterTiltPlane init e = init ++ [e] := by
+  refine ⟨rfl, ?_, by simp [tiltListAfterTiltPlane, Gen.tiltInterfaceAppend, Gen.fieldMulTilt]⟩
+  unfold tiltListAfterPlanes
+  induction pts generalizing init with
+  | nil => simp
+  | cons p ps ih => simp only [List.foldl_cons, List.flatten_cons]; rw [ih]; simp [Gen.fieldMulTilt]
+
+/-- hence `Wavefront(tilt=(a, b))` through untilted planes, and an untilted wavefront through the same planes and then a
+`Tilt(a, b)` plane, hand the same shift to the propagation (derived from the generated list wiring, not assumed) -/
+theorem wavefront_tilt_vs_tilt_plane (a b : R) (n : Nat) (z wl du0 du1 : R) (os : Int) (ij : Bool) :
+    fieldShift (tiltListAfterPlanes (waveTilt a b) (List.replicate n [])) z wl du0 du1 os ij =
+    fieldShift (tiltListAfterTiltPlane (tiltListAfterPlanes [] (List.replicate n [])) (TiltEl.angular a b)) z wl du0 du1 os ij := by
+  have hflat : (List.replicate n ([] : List (TiltEl R))).flatten = [] := by
+    induction n with
+    | zero => rfl
+    | succ n ih => simp [List.replicate_succ, ih]
+  rw [(tilt_lists_built a b _ _ (TiltEl.angular a b)).2.1, (tilt_lists_built a b _ [] (TiltEl.angular a b)).2.1,
+      (tilt_lists_built a b [] _ (TiltEl.angular a b)).2.2, hflat]
+  simp [waveTilt, Gen.wavefrontInitTilt]
 end shift
 
 /-! ## A shift in the DFT kernel is a phase ramp on the input; for the propagation's alpha it is the OPD ramp -/
@@ -222,6 +250,45 @@ theorem tilt_representations_equiv_complex (amp : Int → Int → ℂ) (opd0 : I
     funext x y
     exact hget x y
   rw [hf]
+
+/-- **Several tilt elements.** The same for any list of angular tilt elements (Tilt planes, `Wavefront(tilt=…)`, fit records, in
+any order): the metadata shift is that of the summed angles (`shift_additive`), so the equivalent OPD ramp is the ramp of
+the sums. -/
+theorem tilt_list_equiv_complex (amp : Int → Int → ℂ) (opd0 : Int → Int → ℝ) (ab : List (ℝ × ℝ)) (dx0 dx1 du0 du1 wl z : ℝ)
+    (os : Int) (s0 s1 o0 o1 : Int) (hw : wl ≠ 0) (hz : z ≠ 0) (hos : os ≠ 0) (hdu : du0 ≠ 0 ∧ du1 ≠ 0)
+    (fix0 fix1 : Int) (sub0 sub1 : ℝ)
+    (hsplit : ((fix0 : ℝ) + sub0, (fix1 : ℝ) + sub1) = fieldShift (ab.map fun p => TiltEl.angular p.1 p.2) z wl du0 du1 os true)
+    (oe oe' : Extent) (P0 P1 P0' P1' : Int)
+    (hoe : oe.rmin ≤ oe.rmax ∧ oe.cmin ≤ oe.cmax) (hP : 0 < P0 ∧ 0 < P1)
+    (hoe' : oe'.rmin ≤ oe'.rmax ∧ oe'.cmin ≤ oe'.cmax) (hP' : 0 < P0' ∧ 0 < P1') (r c : Int)
+    (hin : (oe.inb r c && (propExtent P0 P1 fix0 fix1).inb r c) = true)
+    (hin' : (oe'.inb r c && (propExtent P0' P1' 0 0).inb r c) = true) :
+    embO (propagateField ⟨phasorField amp opd0 wl s0 s1 o0 o1, fix0, fix1, sub0, sub1⟩
+      (dftAlpha dx0 dx1 du0 du1 wl z os).1 (dftAlpha dx0 dx1 du0 du1 wl z os).2 oe P0 P1) r c =
+    embO (propagateField ⟨phasorField amp (fun x y => opd0 x y + ((ab.map Prod.fst).sum * RealLike.ofInt (cc s0 x + o0) * dx0
+        - (ab.map Prod.snd).sum * RealLike.ofInt (cc s1 y + o1) * dx1)) wl s0 s1 o0 o1, 0, 0, 0, 0⟩
+      (dftAlpha dx0 dx1 du0 du1 wl z os).1 (dftAlpha dx0 dx1 du0 du1 wl z os).2 oe' P0' P1') r c := by
+  have hs : fieldShift (ab.map fun p => TiltEl.angular p.1 p.2) z wl du0 du1 os true =
+      fieldShift [TiltEl.angular (ab.map Prod.fst).sum (ab.map Prod.snd).sum] z wl du0 du1 os true := by
+    unfold fieldShift; rw [foldShift_angular_list (by simp [RealLike.ofInt])]
+  exact tilt_representations_equiv_complex amp opd0 _ _ dx0 dx1 du0 du1 wl z os s0 s1 o0 o1 hw hz hos hdu fix0 fix1 sub0 sub1
+    (hsplit.trans hs) oe oe' P0 P1 P0' P1' hoe hP hoe' hP' r c hin hin'
+
+/-- **The field in these theorems is the plane model's.** `phasorField` is exactly the phasor `Plane.multiply` builds for one
+segment in the plane model of C03/C07 (`segPhasor` with `planePh`: `amplitude[s]·mask[s]·exp(2πi·opd[s]/λ)` at
+`slice_offset(s, shape)`), and the global coordinate of slice-local index `i` used by the ramp is the plane's own mesh
+coordinate `(i + r0) - ⌊s0/2⌋` of that pixel (generated `Gen.sliceOffset`). -/
+theorem phasorField_is_plane_phasor (amp : Attr ℂ) (opd : Attr ℝ) (wl : ℝ) (s0 s1 : Int) (g : Seg) :
+    segPhasor (planePh (K := ℂ) wl) amp opd s0 s1 g =
+      phasorField (fun i j => maskMul (g.m (i + g.s.r0) (j + g.s.c0)) (amp.at (i + g.s.r0) (j + g.s.c0)))
+        (fun i j => opd.at (i + g.s.r0) (j + g.s.c0)) wl (g.s.r1 - g.s.r0) (g.s.c1 - g.s.c0)
+        (Gen.sliceOffset g.s.r0 g.s.r1 g.s.c0 g.s.c1 s0 s1).1 (Gen.sliceOffset g.s.r0 g.s.r1 g.s.c0 g.s.c1 s0 s1).2 ∧
+    ∀ i j : Int, cc (g.s.r1 - g.s.r0) i + (Gen.sliceOffset g.s.r0 g.s.r1 g.s.c0 g.s.c1 s0 s1).1 = (i + g.s.r0) - s0 / 2 ∧
+                 cc (g.s.c1 - g.s.c0) j + (Gen.sliceOffset g.s.r0 g.s.r1 g.s.c0 g.s.c1 s0 s1).2 = (j + g.s.c0) - s1 / 2 := by
+  refine ⟨rfl, fun i j => ?_⟩
+  unfold Gen.sliceOffset cc
+  simp only []
+  split <;> (rename_i h; simp only [Bool.and_eq_true, decide_eq_true_eq] at h) <;> constructor <;> omega
 end ramp
 
 /-! ## fit_tilt removes exactly the least-squares tip and tilt, not the piston, and records what it removed
@@ -339,7 +406,7 @@ theorem dispersive_on_trace (h1 : (RealLike.ofInt 1 : R) = 1)
   have hpos : (0 : R) < 1 + t0 * t0 := by nlinarith [mul_self_nonneg t0]
   obtain ⟨hs0, hs⟩ := hsqrt (1 + t0 * t0) hpos
   have hne : RealLike.sqrt (1 + t0 * t0) ≠ 0 := ne_of_gt hs0
-  simp only [TiltEl.disp, TiltEl.shift, h1]
+  simp only [TiltEl.disp, TiltEl.shift, Gen.dispersiveShift1, h1]
   generalize RealLike.sqrt (1 + t0 * t0) = q at hs0 hs hne
   generalize hD : (wl - d1) / d0 = D
   have h2 : (D / q) * (D / q) * (q * q) = D * D := by field_simp
